@@ -31,3 +31,55 @@ func stdECDSASign(rnd io.Reader, curve elliptic.Curve, d *big.Int, digest []byte
 func stdECDSAVerify(curve elliptic.Curve, x, y *big.Int, digest []byte, r, s *big.Int) bool {
 	return stdecdsa.Verify(&stdecdsa.PublicKey{Curve: curve, X: x, Y: y}, digest, r, s)
 }
+
+// ecdsaSignWithTail returns a fixed-width r||s ECDSA signature by d over digest whose LAST bytes are tail: nonces
+// k0, k0+1, ... are tried (one point addition each) until s or N-s ends that way. For a 2-byte tail that is some 2^15
+// tries. The result is checked with crypto/ecdsa before it is returned; nil if no nonce within maxTries fits.
+func ecdsaSignWithTail(curve elliptic.Curve, d *big.Int, digest, tail []byte, k0 *big.Int, maxTries int) []byte {
+	p := curve.Params()
+	N := p.N
+	n := (p.BitSize + 7) / 8
+	e := new(big.Int).SetBytes(digest)
+	if excess := len(digest)*8 - N.BitLen(); excess > 0 {
+		e.Rsh(e, uint(excess))
+	}
+	dd := new(big.Int).Mod(d, N)
+	k := new(big.Int).Mod(k0, N)
+	if k.Sign() == 0 {
+		k.SetInt64(1)
+	}
+	x, y := curve.ScalarBaseMult(k.Bytes())
+	one := big.NewInt(1)
+	out := make([]byte, 2*n)
+	for i := 0; i < maxTries; i++ {
+		r := new(big.Int).Mod(x, N)
+		if r.Sign() != 0 {
+			s := new(big.Int).Mul(r, dd)
+			s.Add(s, e)
+			s.Mul(s, new(big.Int).ModInverse(k, N))
+			s.Mod(s, N)
+			for _, cand := range []*big.Int{s, new(big.Int).Sub(N, s)} {
+				if cand.Sign() == 0 {
+					continue
+				}
+				cand.FillBytes(out[n:])
+				if string(out[2*n-len(tail):]) == string(tail) {
+					r.FillBytes(out[:n])
+					px, py := curve.ScalarBaseMult(dd.Bytes())
+					if !stdECDSAVerify(curve, px, py, digest, r, cand) {
+						panic("ecdsaSignWithTail: constructed signature does not verify")
+					}
+					return out
+				}
+			}
+		}
+		k.Add(k, one)
+		if k.Cmp(N) >= 0 {
+			k.SetInt64(1)
+			x, y = curve.ScalarBaseMult(k.Bytes())
+			continue
+		}
+		x, y = curve.Add(x, y, p.Gx, p.Gy)
+	}
+	return nil
+}
